@@ -13,6 +13,64 @@ CHECKS = {
         'note': _NOTE,
         'technique': 'property-based testing: model-based operation histories + invariant over recorded propagation',
     },
+    'C02': {
+        'text': 'Real propagations through generated designed networks under an in-process element recorder: per element and '
+                'per channel the ASE/signal and NLI/signal ratios never decrease, are exactly unchanged by ROADM/Fused/'
+                'Transceiver, NLI/signal unchanged by amplifiers and ASE/signal unchanged by non-Raman fibres; a second '
+                'sub-check adds RamanFiber spans with the Raman solver on.',
+        'note': _NOTE,
+        'technique': 'property-based testing: invariant over recorded per-element snapshots of generated propagations',
+    },
+    'C04': {
+        'text': 'Generated amplifier entries of every type_def through the real library loader x operational settings x '
+                'generated spectra: effective gain clamp, total gain, input-referred ASE = h*f*baud*NF, NF models re-derived '
+                'from the documentation, in-band channel selection.',
+        'note': _NOTE,
+        'technique': 'property-based testing: reference formulas + metamorphic relation (same total power on other channel count)',
+    },
+    'C06': {
+        'text': 'Generated star networks around one ROADM (three equalisation policies, per-degree overrides, impairment '
+                'profiles) designed by the real auto-design; express/add/drop crossings with generated spectra compared with '
+                'own min(target+offset, in-maxloss) arithmetic; single-policy enforcement checked on loader, element and export.',
+        'note': _NOTE,
+        'technique': 'property-based testing: reference model of the equalisation rule',
+    },
+    'C08': {
+        'text': 'Generated libraries and meshes (fibres from metres to hundreds of km incl. lumped and per-frequency loss, fused '
+                'junctions, user amplifiers with full/partial/no settings, RamanFiber spans) through the real designed_network(); '
+                'the designed graph is judged by a validity predicate (complete amplifiers, connectors, padding, equal '
+                'loss-preserving splits, no unamplified junction, one-in/one-out chains, unchanged ROADM-level graph).',
+        'note': _NOTE,
+        'technique': 'property-based testing: validity predicate over designed generated topologies',
+    },
+    'C09': {
+        'text': 'Same generator; for every OMS the gain/target consistency relation, the documented delta_p rule (rounding, '
+                'clamping, 0 before a ROADM, justified saturation reductions, operator values kept) and the propagation of the '
+                'design comb against the designed powers.',
+        'note': _NOTE,
+        'technique': 'property-based testing: reference model of the documented power rule + differential design-vs-propagation',
+    },
+    'C10': {
+        'text': 'select_edfa() on generated libraries against an own capability/NF ranking, and the models chosen by the real '
+                'design in generated networks against the permitted set by documented precedence (variety list, ROADM '
+                'restriction, allowed_for_design, band, Raman rule).',
+        'note': _NOTE,
+        'technique': 'property-based testing: brute-force optimality oracle over the generated library',
+    },
+    'C11': {
+        'text': 'Routes of compute_path_dsjctn (as called by planning) on generated designed meshes compared with a brute-force '
+                'enumeration of all simple ROADM-level paths of the ground-truth multigraph filtered by the include list; '
+                'LOOSE/STRICT outcomes and reverse paths checked.',
+        'note': _NOTE,
+        'technique': 'property-based testing: brute-force graph search as reference model',
+    },
+    'C12': {
+        'text': 'Paths returned for synchronisation groups mapped to ground-truth undirected link ids (from the generator uid '
+                'scheme) and required pairwise disjoint, DisjunctionError required otherwise; completeness for single pairs '
+                'against an own brute-force search for two link-disjoint paths.',
+        'note': _NOTE,
+        'technique': 'property-based testing: ground-truth link sets + brute-force existence search',
+    },
 }
 
 _PENDING = 'check not built yet in this session (work in progress, see DESIGN.md §3)'
